@@ -82,6 +82,8 @@ def events(tier, depth_left, engine="pickle"):
     # a Sampler that is handed a table it already holds in memory (full_df=)
     # before any file exists
     ev.append(["sample_seeded", [[2, 10]]])
+    # the engine given per call to a Sampler whose own default is the other
+    ev.append(["sample_pc", [[1, 20]]])
     ev.append(["sample_obj", 1])
     ev.append(["sample_obj", 2])
     # the numpy random-choice path: one long-lived Sampler whose choices are
@@ -221,6 +223,25 @@ class World:
                          % e)]
             self.s = self.new_sampler()
             before = seed_rows
+            new_rows = [self.expect_row(x[0], x[1]) for x in seq]
+        elif kind == "sample_pc":
+            seq = ev[1]
+            other = {"pickle": "csv", "csv": "pickle"}[self.cfg["engine"]]
+            r = xyz.Runner(self.f, var_names="out", constants={"k": 0})
+            sp = xyz.Sampler(r, data_name=self.path, engine=other,
+                             default_combos={a: _ns["scripted"](a)
+                                             for a in ("b", "a")})
+            builtins._xv_script = {"a": [x[0] for x in seq],
+                                   "b": [x[1] for x in seq]}
+            try:
+                last = sp.sample_combos(len(seq), verbosity=0,
+                                        engine=self.cfg["engine"])
+            except Exception as e:
+                return [("raised:" + type(e).__name__,
+                         "sample_combos(engine=%r) on a Sampler whose own "
+                         "engine is %r raised %r" % (self.cfg["engine"],
+                                                     other, e))]
+            self.s = self.new_sampler()
             new_rows = [self.expect_row(x[0], x[1]) for x in seq]
         elif kind == "sample_obj":
             n = ev[1]
